@@ -17,7 +17,7 @@ META = {
                    "factor of each QR is carried into the next core and the Frobenius norm of the last carried core is returned, "
                    "for every d >= 1 (definite assignment). Plus name resolution incl. third-party attributes and axis-range rules.",
     "assumptions": ["exact arithmetic; numerical stability of the QR sweep vs the Gram chain is outside the claim"],
-    "floors": {"E5-CHAIN": 30, "UNRES": 60, "DEFASSIGN": 20, "QR-CARRY": 3},
+    "floors": {"E5-CHAIN": 30, "UNRES": 60, "DEFASSIGN": 20},
 }
 ANCHORS = ["_tt_base.TT.norm", "_tt_base.TT.sum", "_extras.dot", "_extras.bilinear_form", "_aux_ops.bilinear_form_aux",
            "_tt_base.TT.reduce_dims"]
@@ -117,7 +117,8 @@ def check(model: Model, tier: str):
     scope = [model.func(a) for a in ANCHORS]
     obs += rules.rule_unres(model, scope)
     obs += rules.rule_defassign(model, scope)
-    obs += rule_qr_carry(model)
+    from .common import cross_reference
+    obs += cross_reference(rule_qr_carry(model), [o for o in obs if o.rule.startswith("E5") and "norm:qr" in o.key], "E5 scenarios norm:qr.d1-d3")
     from . import c18
     obs += [o for o in c18.rule_axis_range(model) if "sum" in o.key or "dot" in o.key]
     return obs, {"functions": ANCHORS}
